@@ -34,6 +34,7 @@ type TierCfg struct {
 	TimeLimitS    int            `json:"time_limit_s"`
 	Witnesses     int            `json:"witnesses"`
 	MapOrders     bool           `json:"map_orders"`
+	CrossSolver   string         `json:"cross_solver"` // e.g. "z3-new -in": explore the harness a second time with this solver and compare
 }
 
 type HarnessCfg struct {
@@ -306,6 +307,28 @@ func cmdCheck(args []string) int {
 				inconclusive = append(inconclusive, fmt.Sprintf("%s: expected label %q reached on no path (vacuity)", h.Func, l))
 			}
 		}
+		if tc.CrossSolver != "" {
+			// second exploration with another solver: every feasibility and
+			// assertion verdict is re-decided independently; the explorations must
+			// agree on the number of paths per outcome and on the violated labels
+			cfg2 := *cfg
+			cfg2.SolverArgv = strings.Fields(tc.CrossSolver)
+			opt2 := opt
+			opt2.MaxWitnesses, opt2.WitnessEvery, opt2.Progress = 0, 0, false
+			rep2, err := interp.Explore(prog, fn, &cfg2, opt2)
+			if err != nil {
+				fmt.Fprintln(os.Stderr, "ERROR:", err)
+				return 2
+			}
+			agree := rep2.Paths == rep.Paths && fmt.Sprint(rep2.ByStatus) == fmt.Sprint(rep.ByStatus) &&
+				violLabels(rep2.Violations) == violLabels(rep.Violations) && rep2.Discharged == rep.Discharged
+			fmt.Fprintf(os.Stderr, "[%s] %s: cross-solver %q: %d paths %v, discharged %d, queries %d (unknown %d), agree=%v\n",
+				p.ID, h.Func, tc.CrossSolver, rep2.Paths, rep2.ByStatus, rep2.Discharged, rep2.Queries.Total, rep2.Queries.Unknown, agree)
+			rep.Cross = &interp.CrossCheck{Solver: tc.CrossSolver, Paths: rep2.Paths, Discharged: rep2.Discharged, Queries: rep2.Queries.Total, Agree: agree}
+			if !agree {
+				inconclusive = append(inconclusive, fmt.Sprintf("%s: solvers disagree (%s: %d paths %v / %s: %d paths %v)", h.Func, *solver, rep.Paths, rep.ByStatus, tc.CrossSolver, rep2.Paths, rep2.ByStatus))
+			}
+		}
 		runs = append(runs, harnessRun{h, rep})
 	}
 
@@ -445,6 +468,19 @@ func cmdCheck(args []string) int {
 		fmt.Printf("OK property=%s tier=%s paths=%d validated_witnesses=%d wall=%.1fs\n", p.ID, *tier, totalPaths(runs), validated, time.Since(start).Seconds())
 	}
 	return exit
+}
+
+func violLabels(vs []interp.Violation) string {
+	m := map[string]bool{}
+	for _, v := range vs {
+		m[v.Label] = true
+	}
+	var ls []string
+	for l := range m {
+		ls = append(ls, l)
+	}
+	sort.Strings(ls)
+	return strings.Join(ls, ",")
 }
 
 func totalPaths(runs []harnessRun) int {
